@@ -673,6 +673,7 @@ type AccOp struct {
 	Key     int
 	NoCache bool `json:",omitempty"`
 	Pair    bool `json:",omitempty"` // two requests for the key at the same time, both missing
+	Drop    bool `json:",omitempty"` // no request: the storage drops what it holds (its own clock passes the TTL of every item - the cache's clock has not moved)
 }
 
 type AccCase struct {
@@ -721,6 +722,16 @@ func checkAcc(c AccCase) vk.Verdict {
 	v := vk.Verdict{Classes: []string{"store:" + c.Store}}
 	refreshed, paired := false, false
 	for i, op := range c.Ops {
+		if op.Drop {
+			// a storage may let go of an item at any time (its own TTL clock, eviction under memory pressure): the
+			// keys are simply not stored any more; what is stored afterwards must stay
+			vk.Advance(2 * 3600)
+			for k := range stored {
+				delete(stored, k)
+			}
+			v.Classes = append(v.Classes, "storage-dropped-its-items")
+			continue
+		}
 		if op.Pair {
 			if stored[op.Key] {
 				continue // (both must miss: only for a key that is not stored yet)
@@ -796,8 +807,12 @@ func checkAcc(c AccCase) vk.Verdict {
 
 func genAcc(t *rapid.T) AccCase {
 	c := AccCase{Store: rapid.SampledFrom([]string{"memory", "vk"}).Draw(t, "store")}
-	n := rapid.IntRange(2, 16).Draw(t, "nops")
+	n := rapid.IntRange(2, 24).Draw(t, "nops")
 	for i := 0; i < n; i++ {
+		if rapid.IntRange(0, 9).Draw(t, "drop") == 0 {
+			c.Ops = append(c.Ops, AccOp{Drop: true})
+			continue
+		}
 		c.Ops = append(c.Ops, AccOp{Key: rapid.IntRange(0, 3).Draw(t, "key"), NoCache: rapid.IntRange(0, 3).Draw(t, "nocache") == 0, Pair: rapid.IntRange(0, 7).Draw(t, "pair") == 0})
 	}
 	return c
